@@ -341,15 +341,30 @@ def strip_cast(node: ast.AST) -> ast.AST:
     return node
 
 
-def compare_parts(test: ast.AST) -> List[Tuple[ast.AST, ast.cmpop, ast.AST]]:
-    """Flatten a Compare (incl. chained) into (left, op, right) triples."""
+_FLIP_OP = {ast.Eq: ast.Eq, ast.NotEq: ast.NotEq, ast.Lt: ast.Gt, ast.Gt: ast.Lt, ast.LtE: ast.GtE, ast.GtE: ast.LtE}
+
+
+def compare_parts(test: ast.AST, mirrored: bool = True) -> List[Tuple[ast.AST, ast.cmpop, ast.AST]]:
+    """Flatten a Compare (incl. chained) into (left, op, right) triples.
+
+    With `mirrored` every relational triple is also given in its mirrored orientation
+    (`a < b` additionally as `b > a`), so a rule that looks for one orientation accepts both."""
     out = []
     if isinstance(test, ast.Compare):
         left = test.left
         for op, right in zip(test.ops, test.comparators):
             out.append((left, op, right))
+            if mirrored and type(op) in _FLIP_OP:
+                out.append((right, _FLIP_OP[type(op)](), left))
             left = right
     return out
+
+
+def flipped(test: ast.AST) -> Optional[ast.AST]:
+    """The mirrored form of a single relational comparison (a < b -> b > a), else None."""
+    if isinstance(test, ast.Compare) and len(test.ops) == 1 and type(test.ops[0]) in _FLIP_OP:
+        return ast.Compare(left=test.comparators[0], ops=[_FLIP_OP[type(test.ops[0])]()], comparators=[test.left])
+    return None
 
 
 def conjuncts(test: ast.AST) -> List[ast.AST]:
@@ -405,6 +420,16 @@ def _pm(p: ast.AST, n: ast.AST, b: Dict[str, str]) -> bool:
         return True
     if type(p) is not type(n):
         return False
+    if isinstance(p, ast.Compare) and len(p.ops) == 1 and len(n.ops) == 1 and type(p.ops[0]) is not type(n.ops[0]) or (
+            isinstance(p, ast.Compare) and len(p.ops) == 1 and len(n.ops) == 1 and type(p.ops[0]) in _FLIP_OP and not _pm_fields(p, n, dict(b))):
+        fl = flipped(n)
+        if fl is not None and type(fl.ops[0]) is type(p.ops[0]):
+            return _pm_fields(p, fl, b)
+        return False
+    return _pm_fields(p, n, b)
+
+
+def _pm_fields(p: ast.AST, n: ast.AST, b: Dict[str, str]) -> bool:
     for field_name, pv in ast.iter_fields(p):
         if field_name in ("ctx", "lineno", "col_offset", "end_lineno", "end_col_offset", "type_comment", "kind"):
             continue
